@@ -135,6 +135,7 @@ class Ctx:
         self.module = module
         self.obligs = []
         self.loop_ord = 0
+        self.loop_index = {}
         self.yield_ord = 0
         self.solver_checks = 0
         self.notes = []
@@ -1421,8 +1422,11 @@ class Exec:
 
     def loop(self, node, st, kind):
         ctx = self.ctx
-        ordinal = ctx.loop_ord
-        ctx.loop_ord += 1
+        # loops are numbered syntactically (source order of the for/while statements of the function)
+        ordinal = ctx.loop_index.get(id(node))
+        if ordinal is None:
+            ordinal = ctx.loop_ord
+            ctx.loop_ord += 1
         spec = ctx.loop_invs.get(ordinal)
         if spec is None:
             raise Unsupported("loop #%d at line %d of %s.%s has no invariant" % (ordinal, node.lineno, ctx.cls, ctx.fname))
